@@ -219,6 +219,9 @@ def class_clauses(cname, x, cfg, NFFT, s1, s2):
 
 
 def replay(rep):
+    if rep.get('replay', {}).get('form') == 'routes':
+        from props import _estimators as E_
+        return E_.replay_routes(rep['replay'])
     if rep['replay'].get('protocol') == 'values_only':
         from props import _purity
         return _purity.replay_protocol(rep['replay'])
@@ -279,6 +282,9 @@ def run(ctx):
     from spectrum.arma import arma2psd
     rng = ctx.rng
     ctx.check_theorems('Properties/C08.v')
+    # the estimate an object holds does not depend on the history that gave it its data and settings (every route of _estimators.via)
+    from props import _estimators as E_
+    E_.class_route_stream(ctx, E_.CLASSES, 'routes')
 
     # ---------------- translator + theorems over the generated table
     src = os.path.join(vlib.SNAP, 'src', 'spectrum')
